@@ -1319,9 +1319,12 @@ func planC03(tier string, seed int64) (*Plan, error) {
 	if thorough {
 		w3 := make([]tmpl, 0, len(c03Templates))
 		for _, t := range c03Templates {
+			if t.Pos+2 > len(t.Seed) || len(w3) >= 20 {
+				continue // (a window at the very end of a seed has nothing behind it to keep)
+			}
 			w3 = append(w3, tmpl{t.Seed[:t.Pos] + "XXX" + t.Seed[t.Pos+2:], t.Pos, 3})
 		}
-		jobs = append(jobs, tmplJobs("H_c03_safe", w3[:20], []string{allX})...)
+		jobs = append(jobs, tmplJobs("H_c03_safe", w3, []string{allX})...)
 	}
 	// the typographer with substitutions switched off (a configuration of a built-in extension)
 	typoT := []tmpl{{"<<XX>>", 2, 2}, {"a--XX...", 3, 2}, {"'XX' \"b\"", 1, 2}, {"<<a>>XX<</b>>", 5, 2}, {"![<<XX>>](u)", 4, 2}, {"| <<XX |\n|--|", 5, 2}, {"# <<XX>>", 4, 2}}
